@@ -104,29 +104,31 @@ structure St where
   inodes : List (Nat × Path) := []     -- source inode → first destination path
   lazyDone : List Path := []           -- not-included source dirs (rel) already created on demand
 
+/-- one ancestor directory `d` (relative to the copied source) that was not included itself is created on demand -/
+def parentStep (a : Args) (srcSub : List Snap) (srcRel dstFinal : Path) (s : St) (d : Path) : Except String St :=
+  if included a d || s.lazyDone.contains d then .ok s else
+  match srcSub.find? (·.st.path = joinP2 srcRel d) with
+  | none => .ok s
+  | some sd =>
+    let target := joinP2 dstFinal d
+    match findN s.tree target with
+    | some n =>
+      -- an existing directory used as an on-demand ancestor is chmod'ed to the source directory's mode (nothing else)
+      if n.st.isDir then .ok { s with tree := upsert s.tree { n with st := { n.st with mode := sd.st.mode }, keepIno := none, mtime := none },
+                                       lazyDone := d :: s.lazyDone }
+      else .error "cannot copy to non-directory"
+    | none =>
+      let (st, _) := applyInfo a sd.st []
+      .ok { s with tree := s.tree ++ [{ path := target, st := { st with path := target }, mtime := none }], lazyDone := d :: s.lazyDone }
+
 /-- create, on demand, the ancestors (strictly between the copied root and `rel`) that were not included themselves -/
 def createParents (a : Args) (srcSub : List Snap) (srcRel dstFinal : Path) (rel : Path) (s : St) : Except String St :=
-  let anc := parentPrefixes rel
-  anc.foldlM (fun (s : St) (d : Path) =>
-    if included a d || s.lazyDone.contains d then pure s else
-    match srcSub.find? (·.st.path = joinP2 srcRel d) with
-    | none => pure s
-    | some sd =>
-      let target := joinP2 dstFinal d
-      match findN s.tree target with
-      | some n =>
-        -- an existing directory used as an on-demand ancestor is chmod'ed to the source directory's mode (nothing else)
-        if n.st.isDir then pure { s with tree := upsert s.tree { n with st := { n.st with mode := sd.st.mode }, keepIno := none, mtime := none },
-                                          lazyDone := d :: s.lazyDone }
-        else throw "cannot copy to non-directory"
-      | none =>
-        let (st, _) := applyInfo a sd.st []
-        pure { s with tree := s.tree ++ [{ path := target, st := { st with path := target }, mtime := none }], lazyDone := d :: s.lazyDone }) s
+  (parentPrefixes rel).foldlM (parentStep a srcSub srcRel dstFinal) s
 
 /-- `target` (and what is below it) is replaced: the nodes go; link groups led from there are led by their first remaining member;
-repaired (F29): the link sources recorded there are forgotten (unrepaired: they stay, and a later member of such a group is linked
-to whatever has taken the path) -/
-def dropTarget (s : St) (target : Path) : St :=
+repaired (F29, `fixed`): the link sources recorded there are forgotten (unrepaired: they stay, and a later member of such a group
+is linked to whatever has taken the path) -/
+def dropTargetG (fixed : Bool) (s : St) (target : Path) : St :=
   let gone := fun (p : Path) => p = target || underB target p
   let t := removeSub s.tree target
   let t := t.map fun n =>
@@ -135,51 +137,66 @@ def dropTarget (s : St) (target : Path) : St :=
       | some m => if m.path = n.path then { n with grp := [] } else { n with grp := m.path }
       | none => n
     else n
-  { s with tree := t, inodes := if Fix.f29 then s.inodes.filter (fun ip => !gone ip.2) else s.inodes }
+  { s with tree := t, inodes := if fixed then s.inodes.filter (fun ip => !gone ip.2) else s.inodes }
 
-/-- one source entry, in walk order; `rel` = path relative to the copied source ("" = the source itself) -/
-def copyEntry (a : Args) (srcSub : List Snap) (srcRel dstFinal : Path) (s : St) (e : Snap) : Except String St := do
-  let rel := if e.st.path = srcRel then [] else e.st.path.drop (if srcRel = [] then 0 else srcRel.length + 1)
-  let target := joinP2 dstFinal rel
-  if !included a rel then return s
-  -- alwaysReplace
-  let s := match findN s.tree target with
-    | some n => if a.replace && !(e.st.isDir && n.st.isDir) then dropTarget s target else s
-    | none => s
-  let s ← createParents a srcSub srcRel dstFinal rel s
-  let top := rel = []
-  if e.st.isDir then
-    match findN s.tree target with
-    | none =>
-      let (st, mt) := applyInfo a e.st []
-      return { s with tree := s.tree ++ [{ path := target, st := { st with path := target }, mtime := mt }], notif := s.notif ++ [(target, e.st.isDir)] }
-    | some n =>
-      if !n.st.isDir then throw "cannot copy to non-directory"
-      if top then
-        -- existing top-level target: metadata kept, timestamp set from the source
-        return { s with tree := upsert s.tree { n with mtime := some (a.utime.getD e.st.mtime), keepIno := none } }
-      else
-        let (st, mt) := applyInfo a e.st n.st.xattrs
-        return { s with tree := upsert s.tree { n with st := { st with path := target }, mtime := mt, keepIno := none }, notif := s.notif ++ [(target, e.st.isDir)] }
-  else
-    -- ensureEmptyFileTarget
-    let s ← match findN s.tree target with
-      | some n => if n.st.isDir then throw "cannot replace directory with file" else pure (dropTarget s target)
-      | none => pure s
+def dropTarget (s : St) (target : Path) : St := dropTargetG Fix.f29 s target
+
+/-- always-replace: an existing target goes unless directory meets directory -/
+def replaceStep (a : Args) (e : Snap) (target : Path) (s : St) : St :=
+  match findN s.tree target with
+  | some n => if a.replace && !(e.st.isDir && n.st.isDir) then dropTarget s target else s
+  | none => s
+
+/-- a source directory arrives at `target` (`top` = it is the copied source itself) -/
+def dirStep (a : Args) (e : Snap) (target : Path) (top : Bool) (s : St) : Except String St :=
+  match findN s.tree target with
+  | none =>
     let (st, mt) := applyInfo a e.st []
-    let isReg := e.st.isRegular
-    let leader := if isReg && e.nlink > 1 then (s.inodes.find? (·.1 = e.ino)).map (·.2) else none
-    -- the link source is the path just removed (several sources landing on one non-directory name): os.Link fails
-    if leader = some target then throw "failed to create hard link (link source is the target itself)"
-    -- ... or a directory by now (a later source of the same call replaced the first member under always-replace): os.Link fails too
-    if (leader.bind (findN s.tree)).any (·.st.isDir) then throw "failed to create hard link (link source is a directory by now)"
-    let inodes := if isReg && e.nlink > 1 && leader.isNone then (e.ino, target) :: s.inodes else s.inodes
+    .ok { s with tree := s.tree ++ [{ path := target, st := { st with path := target }, mtime := mt }], notif := s.notif ++ [(target, e.st.isDir)] }
+  | some n =>
+    if !n.st.isDir then .error "cannot copy to non-directory"
+    else if top then
+      -- existing top-level target: metadata kept, timestamp set from the source
+      .ok { s with tree := upsert s.tree { n with mtime := some (a.utime.getD e.st.mtime), keepIno := none } }
+    else
+      let (st, mt) := applyInfo a e.st n.st.xattrs
+      .ok { s with tree := upsert s.tree { n with st := { st with path := target }, mtime := mt, keepIno := none }, notif := s.notif ++ [(target, e.st.isDir)] }
+
+/-- ensureEmptyFileTarget: what stands at the target of a non-directory goes (a directory is a conflict) -/
+def emptyTarget (target : Path) (s : St) : Except String St :=
+  match findN s.tree target with
+  | some n => if n.st.isDir then .error "cannot replace directory with file" else .ok (dropTarget s target)
+  | none => .ok s
+
+/-- the recorded hard-link source of a source entry, if it is a regular file with several links that has been seen before -/
+def leaderOf (e : Snap) (s : St) : Option Path :=
+  if e.st.isRegular && e.nlink > 1 then (s.inodes.find? (·.1 = e.ino)).map (·.2) else none
+
+/-- a source non-directory is created at `target` (nothing stands there any more) -/
+def putFile (a : Args) (e : Snap) (target : Path) (s : St) : Except String St :=
+  let (st, mt) := applyInfo a e.st []
+  let leader := leaderOf e s
+  -- the link source is the path just removed (several sources landing on one non-directory name): os.Link fails
+  if leader = some target then .error "failed to create hard link (link source is the target itself)"
+  -- ... or a directory by now (a later source of the same call replaced the first member under always-replace): os.Link fails too
+  else if (leader.bind (findN s.tree)).any (·.st.isDir) then .error "failed to create hard link (link source is a directory by now)"
+  else
+    let inodes := if e.st.isRegular && e.nlink > 1 && leader.isNone then (e.ino, target) :: s.inodes else s.inodes
     let node : Node := { path := target, st := { st with path := target }, sha := e.sha, mtime := mt, grp := leader.getD [] }
     -- metadata of a hard link is applied to the shared inode: the group follows the last member copied
     let tree := match leader with
       | some l => s.tree.map fun n => if n.path = l || n.grp = l then { n with st := { st with path := n.path }, mtime := mt } else n
       | none => s.tree
-    return { s with tree := tree ++ [node], notif := s.notif ++ [(target, false)], inodes := inodes }
+    .ok { s with tree := tree ++ [node], notif := s.notif ++ [(target, false)], inodes := inodes }
+
+/-- one source entry, in walk order; `rel` = path relative to the copied source ("" = the source itself) -/
+def copyEntry (a : Args) (srcSub : List Snap) (srcRel dstFinal : Path) (s : St) (e : Snap) : Except String St :=
+  let rel := if e.st.path = srcRel then [] else e.st.path.drop (if srcRel = [] then 0 else srcRel.length + 1)
+  let target := joinP2 dstFinal rel
+  if !included a rel then .ok s else
+  (createParents a srcSub srcRel dstFinal rel (replaceStep a e target s)).bind fun s =>
+  if e.st.isDir then dirStep a e target (rel = []) s
+  else (emptyTarget target s).bind (putFile a e target)
 
 /-- the name a source argument contributes below an existing destination directory (`prepareTargetDir`:
 `filepath.Base` of the argument; repaired (F23): of the argument confined to the source root, so that `sub/..`, `..`
@@ -250,7 +267,11 @@ def expectedCopyMulti (a : Args) (srcTree dstTree : List Snap) (srcs : List (Pat
     -- the destination argument is resolved again (inside the root) for every source after the first
     let step (acc : St × Bool) (sr : Path × Path) : Except String (St × Bool) := do
       let (s, first) := acc
-      let d := if first then dstRel else (reresolve s.tree).getD dstRel
+      -- (a destination argument that no longer resolves - an earlier source made it a symlink loop - fails the call)
+      let d ← if first then pure dstRel else
+        match reresolve s.tree with
+        | some d => pure d
+        | none => throw "destination path resolution loops"
       let s' ← copyOne a srcTree sr.1 sr.2 d s
       pure (s', false)
     match srcs.foldlM step ({ tree := t1 }, true) with
